@@ -161,8 +161,36 @@ func VHC17Print() {
 	dollar2 := "{\"s\": \"" + s + "\", \"b\": " + bs + "}"
 	switch vh.Choose("form", 6) {
 	case 0:
-		out, k := runProg("{ print $.s, $.b, null, 7 }", doc)
-		vh.Assert(k == OK && out == s+" "+bs+" null 7\n", "C17: print separates arguments by one space and ends the line")
+		// 1-4 arguments of every kind, strings of length 0-2 (an empty rendering is still an argument)
+		n := 1 + vh.Choose("nargs", 4)
+		args, want := "", ""
+		for i := 0; i < n; i++ {
+			if i > 0 {
+				args += ", "
+				want += " "
+			}
+			name := "p" + itoa(i)
+			switch vh.Choose(name+"k", 5) {
+			case 0:
+				t := vh.Bytes(name+"s", vh.Choose(name+"l", 3))
+				doc[name] = t
+				args += "$." + name
+				want += t
+			case 1:
+				args += "$.b"
+				want += bs
+			case 2:
+				args += "null"
+				want += "null"
+			case 3:
+				args += "7"
+				want += "7"
+			case 4:
+				args += "''"
+			}
+		}
+		out, k := runProg("{ print "+args+" }", doc)
+		vh.Assert(k == OK && out == want+"\n", "C17: print separates its arguments by exactly one space each and ends the line")
 	case 1:
 		out, k := runProg("{ print }", doc)
 		vh.Assert(k == OK && vh.Or(out == dollar+"\n", out == dollar2+"\n"), "C17: a bare print prints $")
